@@ -267,4 +267,10 @@ theorem conn_close_ownership (ops : List COp) : ∀ (S) (c : Client), TInv c →
       · exact absurd hm.symm hop
       · exact hm
 
+/-- the hypotheses are met by a newly created client, so the history theorems speak about every history a user can
+    produce: for the default client, whatever is done, a history with a Close closes the connection exactly once -/
+theorem new_client_closes_once (ops : List COp) (h : COp.close ∈ ops) (hd : ({} : Client).closeConn = true) :
+    connCloses (allOuts (run ({} : Client) ops).2) = 1 :=
+  (conn_close_ownership ops [] {} inv_init (by intro p hp; simp at hp) rfl).2 hd h
+
 end Stun.C15
